@@ -3,8 +3,22 @@
    [enc_*] transcribe sendOpen / sendUpdate / sendWithdraw / sendKeepalive of
    internal/bgp/native/messages.go ([None] = an error is returned), [read_open]
    transcribes readOpen; [dec_msg] is an independent RFC 4271 decoder.
-   [wf_uparams], [wf_ip4], [wf_prefix] are what the Go parameter types
-   guarantee (uint32 / uint16 ranges, 4-byte addresses, prefix length <= 32). *)
+   PREMISES.  [wf_uparams], [wf_prefix], the numeric bounds: uint32 / uint16
+   ranges and prefix length <= 32 ARE guaranteed by the Go parameter types
+   (uint32, uint16, net.CIDRMask(_, 32), IP.To4()).  NOT guaranteed by a type:
+   * the 4-byte NEXT HOP ([wf_ip4 nh] inside [wf_uparams]): nextHop is a net.IP
+     and may be 16 bytes long -- that is exactly finding F11 (IPv6 transport,
+     C16_update_roundtrip_nexthop16_refuted) and the seeded change C16-5; today
+     connect() passes the 4-byte local address of an IPv4 connection;
+   * the hold time being 0 or >= 3 (sendOpen writes 1 or 2 as they are, [dec_msg]
+     then refuses the OPEN): guaranteed upstream by config.parseTimers;
+   * the router id being IPv4: sendOpen panics otherwise ([rid] is To4()).
+   "Reading a peer's OPEN never panics / hangs": [read_open] is a TOTAL Coq
+   function on a FINITE in-memory byte list in which end of input is io.EOF.  That
+   is all the Coq side says; a blocking socket and the 10 s deadline set by
+   connect() are outside the model.  The formal proxy for "the two for{} loops
+   terminate" is C16_read_fuel_adequate; the rest (recover, reader-call budget on
+   every generated input) is the Go oracle. *)
 From Coq Require Import List NArith Bool.
 From Verif Require Import Model.Wire Proofs.WireP Proofs.WireReadP Proofs.WireDecP Proofs.WireSizeP Proofs.WireAcceptP Proofs.WireP_prefix.
 Import ListNotations.
@@ -18,6 +32,8 @@ Theorem C16_open_roundtrip : forall asn rid hold bs w4,
   dec_msg w4 bs = Some (intended_open asn rid hold) /\ wfb bs /\ hdr_len bs = len bs /\ len bs = 49.
 Proof. exact open_roundtrip. Qed.
 
+(* (by definition: [enc_open] is literally [Some ...]; documents that
+   binary.Size(msg) = 49 always fits the length field) *)
 Theorem C16_open_total : forall asn rid hold, enc_open asn rid hold <> None.
 Proof. exact enc_open_total. Qed.
 
@@ -74,9 +90,10 @@ Theorem C16_keepalive_wf : forall w4,
   exists bs, enc_keepalive = Some bs /\ dec_msg w4 bs = Some MKeepalive /\ wfb bs /\ hdr_len bs = len bs /\ len bs = 19.
 Proof. exact keepalive_wf. Qed.
 
-(* readOpen, ALL byte strings: a total function (no panic / hang: by
-   construction) that consumes nothing beyond the stream, and nothing beyond the
-   announced message length (the 19 header octets are always read) *)
+(* readOpen, ALL byte strings (finite, in memory; see the header for what
+   "never panics / hangs" means here): consumes nothing beyond the stream, and
+   nothing beyond the announced message length (the 19 header octets are always
+   read) *)
 Theorem C16_read_open_bounded : forall bs,
   snd (read_open bs) <= len bs /\ (19 <= len bs -> snd (read_open bs) <= N.max 19 (hdr_len bs)).
 Proof. exact read_open_bounded. Qed.
@@ -96,7 +113,12 @@ Proof. exact read_open_correct. Qed.
 (* the same, quantified over EVERY byte string (octets < 256) that the
    independent decoder accepts as an OPEN with capability parameters only: the
    decoder is injective on OPENs (C16_dec_open_inv), so this covers exactly the
-   well-formed OPENs *)
+   well-formed OPENs WITH CAPABILITY PARAMETERS ONLY (an OPEN with any other
+   optional-parameter type is rejected by readOptions: "unknown BGP option type").
+   [understood] mirrors one quirk of the code instead of the RFC: an MP capability
+   counts only when its reserved octet is 0 ([cap_is_mp] compares {reserved, SAFI}
+   as one 16-bit number, like readCapabilities; RFC 4760 says the octet should be
+   ignored).  mp4/mp6 are not used by the session. *)
 Theorem C16_read_open_correct_dec : forall bs o extra,
   wfb bs -> dec_msg true bs = Some (MOpen o) -> Forall is_pcaps (o_params o) ->
   read_open (bs ++ extra) = (ROk (understood o), len bs).
@@ -165,6 +187,15 @@ Theorem C16_nlri_bits : forall p i, wf_prefix p -> i < p_len p ->
   bit_at (snd (intended_nlri p)) i = bit_at (p_ip p) i.
 Proof. exact nlri_bits_spec. Qed.
 
+(* fuel adequacy: the fuelled transcriptions of readOptions / readCapabilities
+   give the same answer for every fuel above the number of octets left on the
+   stream (each continuing iteration consumes >= 2 octets), so their "out of
+   fuel" branch never answers in [read_open], which starts them with S (length s) *)
+Theorem C16_read_fuel_adequate : forall s n1 n2 r extra,
+  read_caps (S (length s) + extra) s n1 n2 r = read_caps (S (length s)) s n1 n2 r /\
+  read_opts (S (length s) + extra) s n1 r = read_opts (S (length s)) s n1 r.
+Proof. exact read_fuel_adequate. Qed.
+
 (* the independent decoder inverts the RFC serializer on every well-formed
    message (ties [ser_msg], used below to quantify over well-formed OPENs, to
    [dec_msg]) *)
@@ -186,4 +217,14 @@ Example C16_nonvacuous_update :
     {| a_pfx := {| p_ip := [192; 168; 1; 255]; p_len := 23 |}; a_lp := 0; a_comms := [CLegacy 64512 100] |}
   = Some (marker ++ [0; 54; 2; 0; 0; 0; 27; 64; 1; 1; 0; 64; 2; 6; 2; 1; 0; 1; 0; 0; 64; 3; 4; 10; 0; 0; 2;
                      192; 8; 4; 252; 0; 0; 100; 23; 192; 168; 1]).
+Proof. vm_compute. reflexivity. Qed.
+
+(* reader o writer, with further bytes on the stream: non-vacuity of
+   C16_open_roundtrip and C16_read_open_correct together *)
+Example C16_nonvacuous_read_of_written_open :
+  match enc_open 70000 [10; 0; 0; 1] 90 with
+  | Some bs => read_open (bs ++ [1; 2; 3]) =
+               (ROk {| r_asn := 70000; r_hold := 90; r_mp4 := true; r_mp6 := true; r_fbasn := true |}, 49)
+  | None => False
+  end.
 Proof. vm_compute. reflexivity. Qed.
